@@ -244,7 +244,7 @@ def make_jobs(pid, unit, tier, seed, scratch, excludes, mode="search", replay_fi
         if cfg.get("gomaxprocs"):
             env["GOMAXPROCS"] = str(cfg["gomaxprocs"])
         timeout = int(cfg.get("timeout", 900 if tier == "quick" else 5400))
-        cmd = [binp, "-test.run", "^%s$" % unit["test"], "-test.timeout", "%ds" % (timeout + 60), "-test.count", "1"]
+        cmd = [binp, "-test.run", "^%s$" % unit["test"], "-test.timeout", "%ds" % max(30, timeout - 20), "-test.count", "1"]
         requested = 0
         if mode == "replay":
             env["VERIF_REPLAY"] = ",".join(replay_files)
